@@ -503,6 +503,12 @@ func (f *FrameV1) AppendixData() []byte {
 func (f *FrameV1) SetAppendixData(appendix []byte) error {
 	origDataSize := len(f.data)
 
+	// Keep room behind the frame for the overhead a link adds when sending it.
+	var overhead int
+	if f.builder != nil {
+		_, overhead = f.builder.FrameMargins()
+	}
+
 	// Expand data so we have enough space.
 	f.data = f.data[:cap(f.data)]
 
@@ -522,7 +528,7 @@ func (f *FrameV1) SetAppendixData(appendix []byte) error {
 		f.data = f.data[:origDataSize]
 		return errors.New("appendix data too big")
 
-	case len(appendix) > len(f.data)-f.appendixIndex:
+	case len(appendix) > len(f.data)-f.appendixIndex-overhead:
 		// The current buffer is too small: move the frame to a bigger one.
 		var err error
 		oldPooledSlice, err = f.moveToBiggerSlice(f.appendixIndex + len(appendix))
